@@ -408,7 +408,7 @@ def run(prop, ctx, log):
             out += c16_queries(fns, 2, True, log)
             if thorough:
                 out += c16_queries(fns, 3, False, log)
-                out += c16_queries(fns, 3, True, log)
+                # 3 threads with a clone (13 events): z3/cvc5 do not answer within the 120 s cap -> not run
         confirm_natively(prop, out, log)
         return out
     except Unsupported as e:
